@@ -67,7 +67,7 @@ func newWireEnv() *wireEnv {
 		panic(err)
 	}
 	go func() { _ = srv.Start() }()
-	db, err := gosql.Open("mysql", fmt.Sprintf("root:@tcp(%s)/db?interpolateParams=false", ln.Addr().String()))
+	db, err := gosql.Open("mysql", fmt.Sprintf("root:@tcp(%s)/db?interpolateParams=false&timeout=30s&readTimeout=60s&writeTimeout=60s", ln.Addr().String()))
 	if err != nil {
 		panic(err)
 	}
